@@ -65,6 +65,8 @@ class SetEval:
             r = e.get("res") or ""
             if r.startswith(REG + "::") and short(r) in self.variants:
                 return frozenset([short(r)])
+            if e.get("res_kind") == "Local" and r in getattr(self, "env", {}):
+                return self.env[r]
             raise Anchor(f"cannot evaluate path {r} as a register set at {loc(e)}")
         if k == "Array":
             s = frozenset()
@@ -83,6 +85,20 @@ class SetEval:
             if c and c in self.F.fns and not e["args"]:
                 return self.fn(c, depth)
             if c and c in self.F.fns and len(e["args"]) == 1 and depth < 8:
+                # helper taking the registers themselves (`set_of(&[X10, X11])`): its body only collects its parameter
+                try:
+                    regs = self.ev(e["args"][0], depth + 1)
+                except Anchor:
+                    regs = None
+                if regs is not None:
+                    g = self.F.fn(c)
+                    pn = g["hir"]["params"][0].get("name")
+                    saved = getattr(self, "env", {})
+                    self.env = dict(saved, **{pn: regs})
+                    try:
+                        return self.ev(g["hir"]["value"], depth + 1)
+                    finally:
+                        self.env = saved
                 # helper taking an iterator of register numbers: evaluate the argument, then the body with the parameter bound
                 nums = self.nums(e["args"][0])
                 g = self.F.fn(c)
